@@ -55,6 +55,8 @@ def run(ctx):
     # agent wrapper (RSNorm): running statistics must survive clone and both load paths
     wscr = [[("create", 1, 7), ("act", 1), ("learn", 1, 1), ("act", 1), ("save", 1, 1), ("clone", 1, 2, 5), ("act", 1), ("learn", 1, 2),
              ("loadnew", 1, 3), ("loadinto", 1, 1), ("learn", 1, 3), ("learn", 2, 3), ("learn", 3, 3)]]
+    wscr.append([("create", 1, 8), ("act", 1), ("learn", 1, 1), ("save", 1, 1), ("act", 1), ("loadinto", 1, 1), ("act", 1), ("act", 1), ("learn", 1, 2),
+                 ("save", 1, 2), ("loadnew", 2, 2), ("act", 1), ("loadinto", 2, 1), ("learn", 1, 3), ("learn", 2, 3)])
     # (RSNorm documents that it supports off-policy algorithms only)
     for algo in (["DQN", "DDPG"] if quick else ["DQN", "DDPG", "RainbowDQN", "TD3", "CQN"]):
         for i, ops in enumerate(wscr):
